@@ -39,6 +39,7 @@ type c04opts struct {
 	cred, dropCaps, nnp, seccomp, sync, ucas bool
 	credNoGroups                             bool
 	newuser, nsgroup, pivot                  bool
+	defaultMap                               bool // user namespace with the launcher's default id mapping (no UID/GIDMappings given)
 	ptrace, stop                             bool
 	workdir, names                           bool
 }
@@ -57,7 +58,8 @@ func (o c04opts) String() string {
 	add(o.seccomp, "seccomp")
 	add(o.sync, "sync")
 	add(o.ucas, "cgroup-after-sync")
-	add(o.newuser, "newuser")
+	add(o.newuser && !o.defaultMap, "newuser")
+	add(o.newuser && o.defaultMap, "newuser(default id mapping)")
 	add(o.nsgroup, "ns(pid,mnt,uts,ipc,net)")
 	add(o.pivot, "pivot")
 	add(o.ptrace, "ptrace")
@@ -92,7 +94,9 @@ func c04launch(o c04opts) (rep *report, ns map[string]string, launchErr error, h
 		UnshareCgroupAfterSync: o.ucas,
 	}
 	exe, outArg := probe("report"), hostOut
-	if o.newuser {
+	if o.newuser && o.defaultMap {
+		r.CloneFlags |= unix.CLONE_NEWUSER
+	} else if o.newuser {
 		r.CloneFlags |= unix.CLONE_NEWUSER
 		r.UIDMappings = []syscall.SysProcIDMap{{ContainerID: 0, HostID: 0, Size: 65536}}
 		r.GIDMappings = []syscall.SysProcIDMap{{ContainerID: 0, HostID: 0, Size: 65536}}
@@ -214,7 +218,7 @@ func init() {
 				return
 			}
 			var o c04opts
-			nsMode := x.Choose(6, "nsmode")
+			nsMode := x.Choose(7, "nsmode")
 			trace := x.Choose(3, "trace")
 			switch x.Choose(3, "cred") {
 			case 1:
@@ -227,9 +231,10 @@ func init() {
 			o.seccomp = x.Bool("seccomp")
 			o.sync = x.Bool("sync")
 			o.ucas = x.Bool("ucas")
-			o.newuser = nsMode == 1 || nsMode == 3 || nsMode == 5
-			o.nsgroup = nsMode >= 2
-			o.pivot = nsMode >= 4
+			o.newuser = nsMode == 1 || nsMode == 3 || nsMode == 5 || nsMode == 6
+			o.defaultMap = nsMode == 6
+			o.nsgroup = nsMode >= 2 && nsMode <= 5
+			o.pivot = nsMode >= 4 && nsMode <= 5
 			o.ptrace = trace == 1
 			o.stop = trace == 2
 			o.workdir = true
@@ -244,6 +249,17 @@ func init() {
 			x.OnHang("C04/launch-hangs", "launch with options "+o.String()+" did not complete within the horizon")
 			if x.Dry() {
 				return
+			}
+			if o.defaultMap {
+				if o.cred {
+					// ids other than the mapped one do not exist in such a namespace: the kernel refuses the switch
+					x.Outcome("n/a:credential-in-a-one-id-namespace")
+					return
+				}
+				// for this launch the launcher's effective group id differs from its effective user id, so that the two
+				// cannot stand in for each other in the mapping
+				syscall.Setegid(4321)
+				defer syscall.Setegid(0)
 			}
 			rep, ns, lerr, herr := c04launch(o)
 			if herr != nil {
@@ -278,11 +294,19 @@ func init() {
 					wantGroups = "[]"
 				}
 			}
-			chk(rep.UID == [3]int{wantU, wantU, wantU}, "uid", "uids %v, expected %d", rep.UID, wantU)
-			chk(rep.GID == [3]int{wantG, wantG, wantG}, "gid", "gids %v, expected %d", rep.GID, wantG)
+			switch {
+			case o.defaultMap:
+				// no mapping given: the launcher's effective user and group ids are what the namespace calls 0
+				chk(rep.UID[1] == 0 && rep.GID[1] == 0, "default-id-mapping", "effective uid/gid inside the namespace %d/%d (uids %v gids %v), expected 0/0: the default mapping maps the launcher's effective ids (uid 0, gid 4321) to 0", rep.UID[1], rep.GID[1], rep.UID, rep.GID)
+			default:
+				chk(rep.UID == [3]int{wantU, wantU, wantU}, "uid", "uids %v, expected %d", rep.UID, wantU)
+				chk(rep.GID == [3]int{wantG, wantG, wantG}, "gid", "gids %v, expected %d", rep.GID, wantG)
+			}
 			g := append([]int{}, rep.Groups...)
 			sort.Ints(g)
-			chk(fmt.Sprint(g) == wantGroups, "groups", "supplementary groups %v, expected %s", g, wantGroups)
+			if !o.defaultMap {
+				chk(fmt.Sprint(g) == wantGroups, "groups", "supplementary groups %v, expected %s", g, wantGroups)
+			}
 			chk(rep.Sid == rep.Pid, "session", "sid %d != pid %d: not a session leader", rep.Sid, rep.Pid)
 			if o.workdir {
 				want := "/w"
